@@ -16,6 +16,9 @@
      was removed from [active] is still reachable through the store, exactly as
      the local variable [ctx] of execute_operation keeps the Python object alive;
    * the clock is the field [now]; it moves only by an explicit [FTick];
+   * a work function may call execute_operation itself ([WExec], to any depth):
+     [exec_in] is structurally recursive in the script; the nested call is made
+     only under an id that is neither live nor that of an enclosing call;
    * the [flags] argument switches back to the behaviour before the three
      `fix:` commits 8bfbd27 / e0df91f / b431062 (documentation and refutation
      only); [current] is the code as it is. *)
@@ -605,13 +608,33 @@ Definition fstep (fl : flags) (w : wcfg) (s : st) (a : fop) : st * list Z :=
 (* system.py: execute_operation                                         *)
 
 Inductive vfn := VNone | VTrue | VFalse | VRaise.
-Inductive wact := WProbe | WDo (a : fop).
 
 (* what a CHECKPOINT callback may do besides returning its verdict: the ways an
    operation is ended from outside (manual kill of any operation, a watchdog
    pass, a maintenance pass = priority inheritance + watchdog, shutdown), time
    passing, and looking at the locks *)
 Inductive cact := CProbe | CKill (o : Z) | CWatchdog | CShutdown | CTick (d : Z) | CMaintain.
+
+(* what a WORK function may do: look at the locks, call the step API, and run a
+   NESTED coordinated operation on the same system (execute_operation called
+   from inside work_fn, with its own fault script - to any depth) *)
+Inductive wact :=
+| WProbe
+| WDo (a : fop)
+| WExec (o p : Z) (reqs : list Z) (sc : script)
+with script := mkScript
+  (sc_cp : list cpo)          (* verdict of the k-th checkpoint evaluation (default beyond the list) *)
+  (sc_cpw : list (list cact)) (* what the k-th checkpoint evaluation does first (nothing beyond the list) *)
+  (sc_work : list wact)       (* what work_fn does before it returns / raises *)
+  (sc_work_raises : bool)
+  (sc_validate : vfn).
+
+Definition sc_cp (sc : script) := match sc with mkScript x _ _ _ _ => x end.
+Definition sc_cpw (sc : script) := match sc with mkScript _ x _ _ _ => x end.
+Definition sc_work (sc : script) := match sc with mkScript _ _ x _ _ => x end.
+Definition sc_work_raises (sc : script) := match sc with mkScript _ _ _ x _ => x end.
+Definition sc_validate (sc : script) := match sc with mkScript _ _ _ _ x => x end.
+
 Definition cact_wact (a : cact) : wact :=
   match a with
   | CProbe => WProbe
@@ -622,14 +645,9 @@ Definition cact_wact (a : cact) : wact :=
   | CMaintain => WDo FMaintain
   end.
 
-Record script := mkScript {
-  sc_cp : list cpo;          (* verdict of the k-th checkpoint evaluation (default beyond the list) *)
-  sc_cpw : list (list cact); (* what the k-th checkpoint evaluation does first (nothing beyond the list) *)
-  sc_work : list wact;       (* what work_fn does before it returns / raises *)
-  sc_work_raises : bool;
-  sc_validate : vfn }.
-
-(* callback log.  EvWork carries the state in which work_fn was invoked *)
+(* callback log.  EvWork carries the state in which work_fn was invoked.  A nested
+   execute_operation shows in the log of the enclosing one as ONE event, [EvDid]
+   of its encoded result ([enc_result]): its own callback log stays its own *)
 Inductive ev :=
 | EvCp (k : nat) (passed : bool)
 | EvWork (s : st)
@@ -642,14 +660,53 @@ Definition probe (s : st) : list (Z * Z) :=
   map (fun rl : Z * lock => (match l_owner (snd rl) with Some o => o | None => -1 end, l_hold (snd rl)))
       (resources s).
 
-Fixpoint run_work (fl : flags) (w : wcfg) (s : st) (acts : list wact) : st * list ev :=
+Record result := mkResult { r_success : bool; r_phase : phase; r_log : list ev }.
+
+Definition phase_code (p : phase) : Z :=
+  match p with G0 => 0 | G1 => 1 | PS => 2 | G2 => 3 | PM => 4 end.
+
+Definition obs_ev (e : ev) : list Z :=
+  match e with
+  | EvCp k b => [0; Z.of_nat k; b2z b]
+  | EvWork _ => [1]
+  | EvProbe l => 2 :: flat_map (fun x : Z * Z => [fst x; snd x]) l
+  | EvDid ret => 3 :: ret
+  | EvWorkRet => [4]
+  | EvWorkRaise => [5]
+  | EvValidate b => [6; b2z b]
+  | EvValidateRaise => [7]
+  end.
+
+(* what the enclosing work function sees of a nested execute_operation:
+   [50; success; phase reached; (length of row, row)*] over the nested callback log;
+   [50; -1] = the driver did not make the call (id of a live or of an enclosing operation) *)
+Definition enc_result (r : result) : list Z :=
+  50 :: b2z (r_success r) :: phase_code (r_phase r)
+     :: flat_map (fun e => Z.of_nat (length (obs_ev e)) :: obs_ev e) (r_log r).
+
+(* the scripted body of a callback.  [nested] runs an execute_operation called from
+   inside it; [encl] = the ids of the operations whose execute_operation calls
+   enclose this body (the driver never re-uses one of them: the context object of
+   an enclosing operation is still in use even if the operation has ended) *)
+Section RunWork.
+Variable nested : st -> Z -> Z -> list Z -> script -> st * result.
+Variable encl : list Z.
+
+Fixpoint run_work_with (fl : flags) (w : wcfg) (s : st) (acts : list wact) : st * list ev :=
   match acts with
   | [] => (s, [])
-  | WProbe :: rest => let '(s', l) := run_work fl w s rest in (s', EvProbe (probe s) :: l)
+  | WProbe :: rest => let '(s', l) := run_work_with fl w s rest in (s', EvProbe (probe s) :: l)
   | WDo a :: rest =>
       let '(s1, ret) := fstep fl w s a in
-      let '(s', l) := run_work fl w s1 rest in (s', EvDid ret :: l)
+      let '(s', l) := run_work_with fl w s1 rest in (s', EvDid ret :: l)
+  | WExec o p reqs sc :: rest =>
+      if is_active s o || memz o encl then
+        let '(s', l) := run_work_with fl w s rest in (s', EvDid [50; -1] :: l)
+      else
+        let '(s1, r) := nested s o p reqs sc in
+        let '(s', l) := run_work_with fl w s1 rest in (s', EvDid (enc_result r) :: l)
   end.
+End RunWork.
 
 Inductive acq_out := AllAcquired | BlockedAt (k : nat) | UnknownAt (k : nat).
 
@@ -664,8 +721,6 @@ Fixpoint acquire_all (fl : flags) (s : st) (o : Z) (k : nat) (reqs : list Z) : s
       end
   end.
 
-Record result := mkResult { r_success : bool; r_phase : phase; r_log : list ev }.
-
 Definition phase_of (s : st) (o : Z) : phase :=
   match get_ctx s o with Some c => c_phase c | None => G0 end.
 
@@ -678,6 +733,14 @@ Definition failed (fl : flags) (s : st) (o : Z) (log : list ev) : st * result :=
 
 Definition cp_of (sc : script) (k : nat) : cpo := nth k (sc_cp sc) CpDefault.
 Definition cb_of (sc : script) (k : nat) : list wact := map cact_wact (nth k (sc_cpw sc) []).
+
+(* how the work function of one execute_operation is run: state -> body -> (state, log) *)
+Definition runner := st -> list wact -> st * list ev.
+
+(* checkpoint callbacks: no nested execute_operation in their alphabet *)
+Definition no_nested (s : st) (o p : Z) (reqs : list Z) (sc : script) : st * result :=
+  (s, mkResult false G0 []).
+Notation run_work := (run_work_with no_nested []).
 
 (* the stages of execute_operation, last first.  Each controller.advance(ctx) is:
    read ctx.phase, run the callback of the checkpoint ([cb_of sc k]), then
@@ -704,20 +767,20 @@ Definition exec_after_work (fl : flags) (w : wcfg) (s5 : st) (o : Z) (sc : scrip
   let log3 := log2 ++ [EvWorkRet] ++ l2 ++ [EvCp 2 b2] in
   if negb b2 then failed fl s7 o log3 else exec_validate fl w s7 o sc log3.
 
-Definition exec_work (fl : flags) (w : wcfg) (s4 : st) (o : Z) (sc : script) (log1 : list ev) : st * result :=
-  let '(s5, wl) := run_work fl w s4 (sc_work sc) in
+Definition exec_work (fl : flags) (w : wcfg) (rw : runner) (s4 : st) (o : Z) (sc : script) (log1 : list ev) : st * result :=
+  let '(s5, wl) := rw s4 (sc_work sc) in
   let log2 := log1 ++ EvWork s4 :: wl in
   if sc_work_raises sc then failed fl s5 o (log2 ++ [EvWorkRaise])
   else exec_after_work fl w s5 o sc log2.
 
-Definition exec_acquired (chk : bool) (fl : flags) (w : wcfg) (s2 : st) (o : Z) (sc : script) (log0 : list ev) : st * result :=
+Definition exec_acquired (chk : bool) (fl : flags) (w : wcfg) (rw : runner) (s2 : st) (o : Z) (sc : script) (log0 : list ev) : st * result :=
   let s3 := upd_ctx s2 o c_set_racq in
   let '(s3', l1) := run_work fl w s3 (cb_of sc 1) in
   let '(s4, b1) := advance_at (phase_of s3 o) s3' o (cp_of sc 1) in
   let log1 := log0 ++ l1 ++ [EvCp 1 b1] in
   if negb b1 then failed fl s4 o log1
   else if chk && negb (is_active s4 o) then failed fl s4 o log1   (* "Operation terminated before work" *)
-  else exec_work fl w s4 o sc log1.
+  else exec_work fl w rw s4 o sc log1.
 
 (* start_operation and the G0 advance (its result is ignored by the code):
    the state in which the acquisition loop starts, the verdict, the callback's log *)
@@ -727,14 +790,30 @@ Definition exec_begin (fl : flags) (w : wcfg) (s : st) (o p : Z) (sc : script) :
   let '(s1, b0) := advance_at G0 s0' o (cp_of sc 0) in
   (s1, b0, l0).
 
-Definition exec_op_gen (chk : bool) (fl : flags) (w : wcfg) (s : st) (o p : Z) (reqs : list Z) (sc : script)
+Definition exec_body (chk : bool) (fl : flags) (w : wcfg) (rw : runner) (s : st) (o p : Z) (reqs : list Z) (sc : script)
   : st * result :=
   let '(s1, b0, l0) := exec_begin fl w s o p sc in
   let log0 := l0 ++ [EvCp 0 b0] in
   match acquire_all fl s1 o 0 reqs with
-  | (s2, AllAcquired) => exec_acquired chk fl w s2 o sc log0
+  | (s2, AllAcquired) => exec_acquired chk fl w rw s2 o sc log0
   | (s2, _) => failed fl s2 o log0                         (* ResourceError / ValueError *)
   end.
+
+(* execute_operation(o, ...) called while the execute_operation calls of [encl]
+   are in progress (innermost first; [] = not from inside a callback).  Structural
+   in the script: the nested calls of its work function run their own scripts. *)
+Fixpoint exec_in (chk : bool) (fl : flags) (w : wcfg) (sc : script) (encl : list Z)
+         (s : st) (o p : Z) (reqs : list Z) {struct sc} : st * result :=
+  exec_body chk fl w
+    (run_work_with (fun s2 o2 p2 reqs2 sc2 => exec_in chk fl w sc2 (o :: encl) s2 o2 p2 reqs2) (o :: encl) fl w)
+    s o p reqs sc.
+
+(* the callbacks of an execute_operation whose enclosing chain (itself first) is [encl] *)
+Definition run_work_x (chk : bool) (encl : list Z) (fl : flags) (w : wcfg) : runner :=
+  run_work_with (fun s2 o2 p2 reqs2 sc2 => exec_in chk fl w sc2 encl s2 o2 p2 reqs2) encl fl w.
+
+Definition exec_op_gen (chk : bool) (fl : flags) (w : wcfg) (s : st) (o p : Z) (reqs : list Z) (sc : script)
+  : st * result := exec_in chk fl w sc [] s o p reqs.
 
 Definition exec_op := exec_op_gen true.
 
@@ -745,8 +824,6 @@ Inductive op :=
 (* ------------------------------------------------------------------ *)
 (* canonical observations for the correspondence check                   *)
 
-Definition phase_code (p : phase) : Z :=
-  match p with G0 => 0 | G1 => 1 | PS => 2 | G2 => 3 | PM => 4 end.
 Definition oz (o : option Z) : Z := match o with Some x => x | None => -1 end.
 
 Definition obs_state (s : st) : list (list Z) :=
@@ -761,18 +838,6 @@ Definition obs_state (s : st) : list (list Z) :=
              | DFound c => 1 :: c ++ (-2) :: cycle_resources (edges s) c
              | DNone _ => [0]
              | DOutOfFuel => [-7] end].
-
-Definition obs_ev (e : ev) : list Z :=
-  match e with
-  | EvCp k b => [0; Z.of_nat k; b2z b]
-  | EvWork _ => [1]
-  | EvProbe l => 2 :: flat_map (fun x : Z * Z => [fst x; snd x]) l
-  | EvDid ret => 3 :: ret
-  | EvWorkRet => [4]
-  | EvWorkRaise => [5]
-  | EvValidate b => [6; b2z b]
-  | EvValidateRaise => [7]
-  end.
 
 Definition step (fl : flags) (w : wcfg) (s : st) (a : op) : st * list (list Z) :=
   match a with
